@@ -308,6 +308,14 @@ def rule_arms(ctx, tbl):
     ctx.floor("F0", "public macros", len(public), 23)
 
 
+def _is_default_static(t):
+    """the one DEFAULT_REGISTRY static, as lazy_static's deref or through LazyLock / OnceLock / Lazy forcing of `&DEFAULT_REGISTRY`"""
+    if "DEFAULT_REGISTRY" not in str(t):
+        return False
+    p_ = peel(t, transparent=["Deref::deref", "LazyLock::force", "LazyLock::deref", "Lazy::force", "Lazy::deref"])
+    return "DEFAULT_REGISTRY" in str(p_) and not (isinstance(p_, tuple) and p_ and p_[0] == "call")
+
+
 def rule_default_registry(ctx, fr):
     ctx.rule("F3", "registry: *_with_registry! forms call Registry::register on the macro's registry argument; the others call prometheus::register, which (like unregister/gather/"
                    "default_registry) forwards to the one DEFAULT_REGISTRY")
@@ -324,7 +332,7 @@ def rule_default_registry(ctx, fr):
             if not ok and is_call(recv, "default_registry") and not recv[2]:
                 # through the public accessor, which itself hands out the one static
                 db = fr.body("prometheus::registry::default_registry")
-                ok = db is not None and "DEFAULT_REGISTRY" in str(db.term_local(0))      # (`default_registry|same-static` below checks that accessor)
+                ok = db is not None and _is_default_static(db.term_local(0))      # (`default_registry|same-static` below checks that accessor)
             if nargs:
                 ok = ok and peel(cs[0].args[1]) == P(1)
             ok = ok and peel(b.term_local(0), transparent=[]) == cs[0].result_term()
@@ -332,7 +340,7 @@ def rule_default_registry(ctx, fr):
     d = ctx.anchor("F3", "default_registry", fr.body("prometheus::registry::default_registry"))
     if d:
         ctx.saw(d)
-        ok = "DEFAULT_REGISTRY" in str(d.term_local(0))
+        ok = _is_default_static(d.term_local(0))
         ctx.ob("F3", "default_registry|same-static", ok, "default_registry() must return the same DEFAULT_REGISTRY", site=d.raw["span"]["at"])
 
 
